@@ -843,6 +843,10 @@ def eq(a, b):
         if is_op(x, 'GETITEM') and is_op(x[2], 'SEC') and x[3] == const(0) and is_const(y) and isinstance(y[1], int) \
                 and is_const(x[2][3]) and y[1] not in ((2, 3) if x[2][3][1] else (4,)):
             return FALSE
+    # a truth value compared with a boolean constant is itself or its negation
+    for x, y in ((a, b), (b, a)):
+        if y in (TRUE, FALSE) and type_of(x) == 'bool':
+            return x if y == TRUE else not_(x)
     # values of different known static types are never equal
     ta, tb = type_of(a), type_of(b)
     if ta and tb and ta != tb and not ({ta, tb} <= {'int', 'bool', 'float'}):
